@@ -177,6 +177,13 @@ class load(DataStreamProcessor):
             else:
                 path = os.path.basename(self.load_source)
                 path = os.path.splitext(path)[0]
+                if self.name is None:
+                    # a name derived from the file name must not clash with a resource that is already there
+                    existing = set(res.name for res in dp.resources)
+                    base, index = path, 1
+                    while path in existing:
+                        index += 1
+                        path = '{}_{}'.format(base, index)
                 descriptor = dict(path=self.name or path,
                                   profile='tabular-data-resource')
                 self.resource_descriptors.append(descriptor)
